@@ -41,6 +41,12 @@ def domain(ctx):
         for d in samples:
             for ef in (False, True):
                 calls.append(('va', d, sch, ef))
+    if ctx.quick():
+        # quick: the definition schemas (one of them is itself not a valid schema) with two documents each
+        for sch in defs:
+            for d in samples[:2]:
+                for ef in (False, True):
+                    calls.append(('va', d, sch, ef))
     # the schema named in its short forms ('athlete.json', 'json\\athlete.json': resolved through the search list of localpath)
     for k in KINDS:
         for sp in short_forms(k):
